@@ -52,7 +52,10 @@ impl Segment {
             || bcoord * dir_norm <= epsilon
             || bcoord * dir_norm >= dir_norm - epsilon
         {
-            if a >= 0.0 {
+            // The plane doesn't cut the segment (up to `epsilon`): the segment lies on the
+            // side of its midpoint. (The endpoint `self.a` alone can't tell: it may be the one
+            // lying on, or within `epsilon` of, the plane.)
+            if a - b * 0.5 >= 0.0 {
                 (SplitResult::Negative, None)
             } else {
                 (SplitResult::Positive, None)
